@@ -310,6 +310,11 @@ func (c *Check) baseReads() {
 			}
 			continue
 		}
+		// a helper that is only called where the base is known to be good
+		if why := baseGoodAtCallers(p, f, 0); why == "" {
+			c.ok("C13-R2", key, p.relFile(fa.Pos()), "file.base read in helper "+fnName(f), "every call of it follows baseOnce.Do and lies where baseErr == nil")
+			continue
+		}
 		// unreachable when baseErr != nil
 		reach := reachUnder(f, func(cond ssa.Value) int {
 			isBaseErr := func(v ssa.Value) bool {
@@ -827,6 +832,7 @@ func (c *Check) headerForOffset() {
 	}
 	ok := true
 	n := 0
+	var searchCalls []*ssa.Call // search-helper calls whose result selects the returned header
 	for _, b := range f.Blocks {
 		ret, isRet := b.Instrs[len(b.Instrs)-1].(*ssa.Return)
 		if !isRet {
@@ -869,6 +875,38 @@ func (c *Check) headerForOffset() {
 			find(state)
 		}
 		if state == nil || init == nil {
+			// the header was found by a search helper that returns an index or a negative
+			// number: the successful return must be unreachable when nothing was found
+			if ld, isLd := res.(*ssa.UnOp); isLd && ld.Op == token.MUL {
+				if ia, isIA := ld.X.(*ssa.IndexAddr); isIA {
+					if call, isCall := ia.Index.(*ssa.Call); isCall {
+						if isSearchHelper(call.Call.StaticCallee()) {
+							reach := reachUnder(f, func(cond ssa.Value) int {
+								cmp, isCmp := cond.(*ssa.BinOp)
+								if !isCmp || cmp.X != ssa.Value(call) {
+									return 0
+								}
+								k, isK := constInt(cmp.Y)
+								if !isK {
+									return 0
+								}
+								switch {
+								case cmp.Op == token.LSS && k == 0, cmp.Op == token.EQL && k == -1, cmp.Op == token.LEQ && k == -1:
+									return 1
+								case cmp.Op == token.GEQ && k == 0, cmp.Op == token.NEQ && k == -1, cmp.Op == token.GTR && k == -1:
+									return -1
+								}
+								return 0
+							})
+							if reach[b] {
+								ok = false
+							}
+							searchCalls = append(searchCalls, call)
+							continue
+						}
+					}
+				}
+			}
 			ok = false
 			continue
 		}
@@ -964,10 +1002,149 @@ func (c *Check) headerForOffset() {
 			}
 		}
 	}
+	// search-helper form: a second search that starts after the first hit, and an error return
+	// taken when it finds something
+	for _, first := range searchCalls {
+		for _, b := range f.Blocks {
+			iff, isIf := b.Instrs[len(b.Instrs)-1].(*ssa.If)
+			if !isIf {
+				continue
+			}
+			cmp, isCmp := iff.Cond.(*ssa.BinOp)
+			if !isCmp {
+				continue
+			}
+			second, isCall := cmp.X.(*ssa.Call)
+			if !isCall || second == first || second.Call.StaticCallee() != first.Call.StaticCallee() {
+				continue
+			}
+			// its start position derives from the first hit
+			fromFirst := false
+			for _, a := range second.Call.Args {
+				if add, isAdd := a.(*ssa.BinOp); isAdd && add.Op == token.ADD && add.X == ssa.Value(first) {
+					if k, isK := constInt(add.Y); isK && k == 1 {
+						fromFirst = true
+					}
+				}
+			}
+			k, isK := constInt(cmp.Y)
+			if !fromFirst || !isK {
+				continue
+			}
+			var found *ssa.BasicBlock
+			switch {
+			case cmp.Op == token.GEQ && k == 0, cmp.Op == token.GTR && k == -1, cmp.Op == token.NEQ && k == -1:
+				found = b.Succs[0]
+			case cmp.Op == token.LSS && k == 0, cmp.Op == token.EQL && k == -1:
+				found = b.Succs[1]
+			}
+			if found == nil {
+				continue
+			}
+			if ret, isRet := found.Instrs[len(found.Instrs)-1].(*ssa.Return); isRet {
+				if kk, isConst := ret.Results[1].(*ssa.Const); !isConst || !kk.IsNil() {
+					inLoop = true
+				}
+			}
+		}
+	}
 	if inLoop {
 		c.ok("C13-R6", "unique:second", p.relFile(f.Pos()), "a second matching header is reported as an error", "an error return is reachable from inside the search loop")
 	} else {
 		c.bad("C13-R6", "unique:second", p.relFile(f.Pos()), "HeaderForFileOffset no longer fails when two headers match the offset")
 	}
 	_ = strings.Contains
+}
+
+// isSearchHelper: every return of h is a negative constant ("not found") or the counter of a
+// loop that runs while the counter is below the length of one of h's slice parameters.
+func isSearchHelper(h *ssa.Function) bool {
+	if h == nil || !fnInModule(h) || len(h.Blocks) == 0 || h.Signature.Results().Len() != 1 {
+		return false
+	}
+	nIdx := 0
+	for _, b := range h.Blocks {
+		ret, ok := b.Instrs[len(b.Instrs)-1].(*ssa.Return)
+		if !ok {
+			continue
+		}
+		r := ret.Results[0]
+		if k, ok := constInt(r); ok {
+			if k >= 0 {
+				return false
+			}
+			continue
+		}
+		var counter ssa.Value
+		if rangeIndex(r) {
+			counter = r
+		} else if ph, ok := r.(*ssa.Phi); ok {
+			for _, e := range ph.Edges {
+				if add, ok := e.(*ssa.BinOp); ok && add.Op == token.ADD && add.X == ssa.Value(ph) && isConstInt(add.Y, 1) {
+					counter = ph
+				}
+			}
+		}
+		if counter == nil || counter.Referrers() == nil {
+			return false
+		}
+		bounded := false
+		for _, ref := range *counter.Referrers() {
+			if cmp, ok := ref.(*ssa.BinOp); ok && cmp.Op == token.LSS && cmp.X == counter {
+				if _, isParam := lenSlice(cmp.Y).(*ssa.Parameter); isParam {
+					bounded = true
+				}
+			}
+		}
+		if !bounded {
+			return false
+		}
+		nIdx++
+	}
+	return nIdx > 0
+}
+
+// baseErrAssume: branch outcomes under the assumption that file.baseErr is non-nil (read
+// directly, or handed back by a helper that runs the once and returns it).
+func baseErrAssume(cond ssa.Value) int {
+	isBaseErr := func(v ssa.Value) bool {
+		if isFieldLoad(v, "binutils.file", "baseErr") {
+			return true
+		}
+		call, ok := v.(*ssa.Call)
+		return ok && call.Call.StaticCallee() != nil && returnsFieldOfReceiver(call.Call.StaticCallee(), "binutils.file", "baseErr")
+	}
+	if cmp, ok := cond.(*ssa.BinOp); ok && (isBaseErr(cmp.X) || isBaseErr(cmp.Y)) {
+		switch cmp.Op {
+		case token.NEQ:
+			return 1
+		case token.EQL:
+			return -1
+		}
+	}
+	return 0
+}
+
+// baseGoodAtCallers: "" when f is a helper (never used as a value) every call of which is
+// preceded by baseOnce.Do and unreachable when baseErr is non-nil — in the caller, or in the
+// caller's own callers.
+func baseGoodAtCallers(p *Program, f *ssa.Function, depth int) string {
+	if depth > 2 {
+		return "call chain too long"
+	}
+	calls, asValue := directCallSites(p, f)
+	if asValue || len(calls) == 0 {
+		return "not a helper with known callers"
+	}
+	for _, call := range calls {
+		g := call.Parent()
+		ins := call.(ssa.Instruction)
+		if dominatedByOnce(g, ins) && !reachUnder(g, baseErrAssume)[ins.Block()] {
+			continue
+		}
+		if why := baseGoodAtCallers(p, g, depth+1); why != "" {
+			return "called from " + fnName(g) + " where the base may be unset"
+		}
+	}
+	return ""
 }
